@@ -377,14 +377,30 @@ fn multi(ctx: &Ctx, n: usize, pts: &[Known], scs: &[U], off: usize, none_at: Opt
     match guarded(|| EdwardsPoint::optional_multiscalar_mul(rs.iter(), opts.iter().cloned())) {
         Ok(g) => match (g, none_at) {
             (None, Some(_)) => {}
-            (Some(p), None) => {
-                if p.compress().0 != want.compress() {
-                    ctx.violation("ed.optional_multiscalar_mul", "wrong sum", case.clone());
-                }
-            }
+            (Some(p), None) => cmp(ctx, "ed.optional_multiscalar_mul", Ok(p), &want, &case, None),
             (g, _) => ctx.violation("ed.optional_multiscalar_mul", &format!("Some/None: got is_some={} with a None input: {}", g.is_some(), none_at.is_some()), case.clone()),
         },
         Err(e) => ctx.violation("ed.optional_multiscalar_mul", &format!("panic: {}", e), case.clone()),
+    }
+    // the precomputed optional variant: None among the dynamic points (static part = first half)
+    if n >= 1 {
+        ctx.eval(1);
+        let split = n / 2;
+        let (sp, _) = rp.split_at(split);
+        let (ss, ds) = rs.split_at(split);
+        let dopts = &opts[split..];
+        let dyn_none = none_at.map(|i| i >= split).unwrap_or(false);
+        let c2 = json!({"kind": "multi_precomputed_optional", "n": n, "offset": off, "split": split, "none_at": none_at});
+        ctx.case(&c2.to_string());
+        // a None that falls into the static half cannot be expressed (static points are not optional): use the points
+        if none_at.is_none() || dyn_none {
+            match guarded(|| VartimeEdwardsPrecomputation::new(sp.iter()).optional_mixed_multiscalar_mul(ss.iter(), ds.iter(), dopts.iter().cloned())) {
+                Ok(None) if dyn_none => {}
+                Ok(Some(p)) if !dyn_none => cmp(ctx, "ed.precomputed.optional_mixed_multiscalar_mul", Ok(p), &want, &c2, None),
+                Ok(g) => ctx.violation("ed.precomputed.optional_mixed_multiscalar_mul", &format!("is_some={} with a None dynamic input: {}", g.is_some(), dyn_none), c2.clone()),
+                Err(e) => ctx.violation("ed.precomputed.optional_mixed_multiscalar_mul", &format!("panic: {}", e), c2.clone()),
+            }
+        }
     }
     if none_at.is_some() {
         return;
@@ -406,13 +422,9 @@ fn multi(ctx: &Ctx, n: usize, pts: &[Known], scs: &[U], off: usize, none_at: Opt
         });
         match r {
             Ok((m, os)) => {
-                if m.compress().0 != want.compress() {
-                    ctx.violation("ed.precomputed.vartime_mixed_multiscalar_mul", "wrong sum", c2.clone());
-                }
+                cmp(ctx, "ed.precomputed.vartime_mixed_multiscalar_mul", Ok(m), &want, &c2, None);
                 if let Some(o) = os {
-                    if o.compress().0 != want.compress() {
-                        ctx.violation("ed.precomputed.vartime_multiscalar_mul", "wrong sum", c2.clone());
-                    }
+                    cmp(ctx, "ed.precomputed.vartime_multiscalar_mul", Ok(o), &want, &c2, None);
                 }
             }
             Err(e) => ctx.violation("ed.precomputed", &format!("panic: {}", e), c2.clone()),
@@ -425,11 +437,7 @@ fn multi(ctx: &Ctx, n: usize, pts: &[Known], scs: &[U], off: usize, none_at: Opt
         ctx.case(&c2.to_string());
         let want2 = expect_sum(&terms[..n - 1]);
         match guarded(|| VartimeEdwardsPrecomputation::new(rp.iter()).vartime_multiscalar_mul(rs[..n - 1].iter())) {
-            Ok(g) => {
-                if g.compress().0 != want2.compress() {
-                    ctx.violation("ed.precomputed.short_static_scalars", "wrong sum", c2);
-                }
-            }
+            Ok(g) => cmp(ctx, "ed.precomputed.short_static_scalars", Ok(g), &want2, &c2, None),
             Err(e) => ctx.violation("ed.precomputed.short_static_scalars", &format!("panic: {}", e), c2),
         }
     }
@@ -444,6 +452,20 @@ fn multi(ctx: &Ctx, n: usize, pts: &[Known], scs: &[U], off: usize, none_at: Opt
             let c = RistrettoPoint::optional_multiscalar_mul(rs.iter(), rps.iter().map(|p| Some(*p))).map(|p| p.compress().0);
             let pre = VartimeRistrettoPrecomputation::new(rps.iter());
             let d = pre.vartime_multiscalar_mul(rs.iter()).compress().0;
+            // mixed: first point static, the rest dynamic; and the optional form with and without a None
+            if n == 0 {
+                return (a, b, c, d);
+            }
+            let pre1 = VartimeRistrettoPrecomputation::new(rps[..1].iter());
+            let e = pre1.vartime_mixed_multiscalar_mul(rs[..1].iter(), rs[1..].iter(), rps[1..].iter()).compress().0;
+            let f = pre1.optional_mixed_multiscalar_mul(rs[..1].iter(), rs[1..].iter(), rps[1..].iter().map(|p| Some(*p))).map(|p| p.compress().0);
+            let g = if n >= 2 {
+                pre1.optional_mixed_multiscalar_mul(rs[..1].iter(), rs[1..].iter(), rps[1..].iter().enumerate().map(|(i, p)| if i == 0 { None } else { Some(*p) })).is_none()
+                    && RistrettoPoint::optional_multiscalar_mul(rs.iter(), rps.iter().enumerate().map(|(i, p)| if i == n - 1 { None } else { Some(*p) })).is_none()
+            } else {
+                true
+            };
+            assert!(e == d && f == Some(d) && g, "Ristretto mixed / optional precomputed variants disagree or ignore a None");
             (a, b, c, d)
         });
         match r {
